@@ -19,4 +19,7 @@ SmallPrograms ==
     \o [i \in 1..3 |-> Pg("trk", "join", 1, << <<S("aw", 1), S("ret", i - 1)>> >>)]
     \o [i \in 1..3 |-> Pg("trk", "start", 0, << <<S("co", 2), S("ret", i - 1)>>, <<S("ret", i - 1)>> >>)]
     \o [i \in 1..3 |-> Pg("trk", "detach", 0, << <<S("ret", i - 1)>> >>)]
+    \* reference results, also collected through value futures
+    \o [i \in 1..6 |-> Pg("ref", <<"join", "start", "vfctor", "vshift", "vretfn", "claimed">>[i], 1, <<Leaf>>)]
+    \o << Pg("ref", "start", 0, << <<S("vf", 2), S("ret", 0)>>, <<S("co", 3), S("ret", 0)>>, <<S("ret", 0)>> >>) >>
 =============================================================================
